@@ -32,10 +32,60 @@ let dump_brief (h : heap) : string =
   Printf.sprintf "%s ~ %s" (string_of_n h.size)
     (match h.root with E -> "." | T (_, x, _) -> string_of_int (int_of_nat x.eid))
 
+(* ---- pointer-level shadow (HeapLinksModel): executed next to the functional
+   model for small pools; its decoded structure must be the same text *)
+module PL = HeapLinksModel
+
+let shadow_limit = 160   (* pools up to this many elements *)
+
+(* the extracted memory is a closure chain; flatten it after every operation *)
+let compact (ne : int) (h : PL.pheap) : PL.pheap =
+  let arr = Array.init ne (fun a -> h.PL.pm (nat_of_int a)) in
+  let dflt = { PL.np = None; PL.nl = None; PL.nr = None } in
+  { h with PL.pm = (fun a -> let i = int_of_nat a in if i < ne then arr.(i) else dflt) }
+
+(* same decoding as harness/drv_heap.c: level order through l/r, every parent
+   pointer checked, every node at most once, count = size *)
+let dump_links (ne : int) (full : bool) (h : PL.pheap) : string =
+  let b = Buffer.create 256 in
+  Buffer.add_string b (string_of_n h.PL.psize);
+  Buffer.add_string b (if full then " :" else " ~");
+  let m a = h.PL.pm a in
+  let bad = ref None in
+  let seen = Hashtbl.create 64 in
+  let count = ref 0 in
+  (match h.PL.proot with
+   | Some r -> if (m r).PL.np <> None then bad := Some "root-has-parent";
+               if not full then (Buffer.add_char b ' '; Buffer.add_string b (string_of_int (int_of_nat r)))
+   | None -> if not full then Buffer.add_string b " .");
+  let q = Queue.create () in
+  Queue.add h.PL.proot q;
+  (try
+    while not (Queue.is_empty q) do
+      match Queue.pop q with
+      | None -> if full then Buffer.add_string b " ."
+      | Some a ->
+        let i = int_of_nat a in
+        if Hashtbl.mem seen i then (bad := Some "node-reached-twice"; raise Exit);
+        Hashtbl.replace seen i ();
+        incr count;
+        if !count > 4 * ne + 4 then (bad := Some "too-many-nodes"; raise Exit);
+        if full then (Buffer.add_char b ' '; Buffer.add_string b (string_of_int i));
+        let n = m a in
+        (match n.PL.nl with Some l when (m l).PL.np <> Some a -> bad := Some "left-child-parent-link" | _ -> ());
+        (match n.PL.nr with Some r when (m r).PL.np <> Some a -> bad := Some "right-child-parent-link" | _ -> ());
+        Queue.add n.PL.nl q; Queue.add n.PL.nr q
+    done
+  with Exit -> ());
+  if !bad = None && string_of_int !count <> string_of_n h.PL.psize then bad := Some "size-field";
+  (match !bad with Some w -> Buffer.add_string b (" MALFORMED " ^ w) | None -> ());
+  Buffer.contents b
+
 let run_case (c : case) =
   Printf.printf "case %s\n" c.name;
   let keys = ref [||] and every = ref 1 in
   let st = ref h_init in
+  let pst = ref (Some PL.ph_init) in      (* None: shadow switched off for this case *)
   let dead = ref false in
   let nops = L.length (L.filter (fun w -> match w with ("keys" | "dumpevery" | "cmpmode") :: _ -> false | _ -> true) c.lines) in
   let i = ref 0 in
@@ -55,7 +105,22 @@ let run_case (c : case) =
           | Prelude.Done (s', out) ->
             st := s';
             let full = (!i mod !every = 0) || !i = nops in
-            Printf.printf "ok %s | %s\n" (zs out) (if full then dump_full s' else dump_brief s')
+            let d = if full then dump_full s' else dump_brief s' in
+            Printf.printf "ok %s | %s\n" (zs out) d;
+            (* the pointer-level model must agree on results and structure *)
+            let ne = Array.length !keys in
+            if ne > shadow_limit then pst := None;
+            (match !pst with
+             | None -> ()
+             | Some ph ->
+               (match PL.p_step key ph o with
+                | Prelude.Done (ph', pout) ->
+                  let ph' = compact ne ph' in
+                  pst := Some ph';
+                  let pd = dump_links ne full ph' in
+                  if zs pout <> zs out || pd <> d then
+                    Printf.printf "LINKS-MISMATCH ok %s | %s\n" (zs pout) pd
+                | _ -> print_endline "LINKS-MISMATCH pointer-level model did not return"))
           | Prelude.Abort -> print_endline "abort"; dead := true
           | Prelude.Fault -> print_endline "fault"; dead := true
           | Prelude.Precond -> print_endline "precond"; dead := true))) c.lines;
